@@ -346,8 +346,10 @@ Proof. vm_compute. repeat split; reflexivity. Qed.
    - ReassemblyComplete comes only when the data half was ended by FIN/RST or when everything the
      stream received has been delivered (max_recv R <= delivery point; nothing received at all for a
      stream whose start was never seen).
-   Missing for C09_stream_statement: that FlushAll leaves no live stream (termination of the flush
-   loop within its fuel) and that a flush never closes the data half without completing the stream, and the step from this Prop to the
+   - after FlushAll no stream is left (every stream that existed got its ReassemblyComplete: the flush
+     loop runs until the data half is closed, its fuel exceeds the queue length).
+   Missing for C09_stream_statement: that FlushWithOptions never closes the data half without
+   completing the stream (gclosed, the silent close, is still allowed by gtrace for it), and the step from this Prop to the
    boolean trace_okb. *)
 Theorem C09_stream_events : forall S i hs,
   zlen S < 1073741823 -> forallb (hop_okb S) hs = true ->
